@@ -24,7 +24,7 @@ ASSUMPTIONS = [
 REQUIRED = ['complete_requested', 'nested_complete', 'descendant_cancelled', 'descendant_stopped', 'descendant_raised',
             'descendant_from_generator_step', 'several_roots_in_flight', 'complete_channels_override', 'closure_depth_3plus',
             'handler_suspended_in_call_or_wait', 'call_or_wait_timed_out_in_closure', 'suspended_again_right_after_timeout',
-            'feedback_event_handler_in_closure', 'derived_child_event_in_closure', 'driven_by_tick_from_the_calling_thread', 'manager_had_an_earlier_run', 'earlier_run_in_another_thread', 'earlier_run_ended_with_exit_code']
+            'root_events_fired_on_a_component_that_joins_later', 'feedback_event_handler_in_closure', 'derived_child_event_in_closure', 'driven_by_tick_from_the_calling_thread', 'manager_had_an_earlier_run', 'earlier_run_in_another_thread', 'earlier_run_ended_with_exit_code']
 REQUIRED_OBLIGATIONS = ['COMPLETE_ONCE', 'COMPLETE_AFTER_CLOSURE', 'COMPLETE_EVENTUALLY']
 WORKER_TIMEOUT = {'quick': 300, 'thorough': 1500}
 ENGINE = 'stepping-driver'
@@ -104,14 +104,34 @@ def run_case(case):
         why = earlier_run(w, case['earlier_run'])
         if why:
             return None, {'inconclusive': why}, w
-    for spec in case['fires']:
-        w.fire(spec)
+    carrier = None
+    if case.get('carrier'):
+        # the root events are fired on a component that is not registered yet (they wait in its own queue); it then joins the tree, and
+        # after everything has drained it leaves and joins again: nothing of the first round may be left to happen a second time
+        from circuits import BaseComponent
+        carrier = BaseComponent()
+        for spec in case['fires']:
+            w.fire(spec, target=carrier)
+        carrier.register(w.app)
+    else:
+        for spec in case['fires']:
+            w.fire(spec)
     if case.get('drive') == 'tick':
         # the manager is not run(): the calling thread drives it with tick() until nothing is left (no timeouts in such programs)
         settled = w.settle(max_ticks=1500)
         w.run_raised = None
     else:
         settled = w.run(max_iters=1500)
+    if carrier is not None and settled and w.run_raised is None:
+        carrier.unregister()
+        w.settle(max_ticks=300)
+        carrier.register(w.app)
+        w.settle(max_ticks=300)
+        carrier.unregister()
+        w.settle(max_ticks=300)
+        while len(carrier):          # ... nor when it is flushed as a root of its own
+            carrier.flush()
+        settled = w.settle(max_ticks=300)
     if w.run_raised is not None:
         return [('LOOP_RAISED', {'error': repr(w.run_raised)})], {'marks': set(), 'counts': {}}, w
     if not settled:
@@ -156,6 +176,8 @@ def evaluate(case, w):
         elif e[0] == 'RX':
             susp.setdefault(e[1], []).append((i, e[2], e[5]))
     raised = {e[1] for e in w.log if e[0] == 'PX'}
+    if case.get('carrier'):
+        marks.add('root_events_fired_on_a_component_that_joins_later')
     if case.get('drive') == 'tick':
         marks.add('driven_by_tick_from_the_calling_thread')
     pre = case.get('earlier_run')
@@ -297,6 +319,8 @@ def corpus():
                 cs.append(dict(base, name='%s-after-%s-run-%s-%s' % (base['name'], 'thread' if pre['thread'] else 'own', pre['code'], drive),
                                earlier_run=pre, drive=drive))
         cs.append(dict(base, name=base['name'] + '-tick', drive='tick'))
+        cs.append(dict(base, name=base['name'] + '-carrier', carrier=True))
+        cs.append(dict(base, name=base['name'] + '-carrier-tick', carrier=True, drive='tick'))
     # generator handlers suspended in call()/wait() inside the closure; the callee outlasts the timeout
     slow = HD(8, 'slow', [['yield', None]] * 6 + [['fire', {'name': 'late'}]], gen=True)
     tail = [HD(9, 'quick', [['fire', {'name': 'd'}]]), HD(10, 'd', []), HD(11, 'late', [['fire', {'name': 'd'}]]), HD(12, 'after', [['fire', {'name': 'd'}]])]
@@ -357,6 +381,8 @@ def gen_case(rng):
     r = rng.random()
     if r < 0.25:
         case['drive'] = 'tick'
+    if rng.random() < 0.12:
+        case['carrier'] = True
     if r < 0.15 or rng.random() < 0.08:
         case['earlier_run'] = {'thread': rng.random() < 0.6, 'code': rng.choice([None, 0, 3, 'bye'])}
     return case
